@@ -1107,6 +1107,12 @@ class Interp:
 
     def np_call(self, fn, args, kwargs):
         n = self.num
+        if fn == "finfo":
+            # IEEE double precision (the library runs with 64-bit floats enabled): exact values of the limits
+            two = Fraction(2)
+            return Record("finfo", ["eps", "tiny", "smallest_normal", "max", "min", "resolution"],
+                          [Dual(two ** -52), Dual(two ** -1022), Dual(two ** -1022), Dual((2 - two ** -52) * two ** 1023),
+                           Dual(-(2 - two ** -52) * two ** 1023), Dual(Fraction(1, 10 ** 15))])
         if fn in ("eye", "identity"):
             k = self.as_int(args[0])
             return Arr([Dual(1 if i == j else 0) for i in range(k) for j in range(k)], (k, k))
